@@ -184,7 +184,14 @@ function deepmergeConstructor(options: any) {
 
     if (isPrimitive(source)) {
       return source;
+    } else if (isPrimitiveOrBuiltIn(source)) {
+      // Date, Map, Set, typed array: never merged key by key into a plain object
+      return source;
     } else if (isPrimitiveOrBuiltIn(target)) {
+      if (!isPrimitive(target) && !sourceIsArray) {
+        // the other projection of the same input is a built-in object: it carries the content
+        return target;
+      }
       return clone(source);
     } else if (sourceIsArray && targetIsArray) {
       return mergeArray(target, source);
